@@ -170,6 +170,42 @@ def unicode_key_cases():
     return out
 
 
+LITERAL_KEY_TEXTS = ["[]", "[1, 2]", "[[]]", "{}", "{1: [2]}", "{'a': 1}", "(1, 2)", "()", "None", "True", "1.5", "1e3", "0x10",
+                     "-0", "1_0", "[1", "'a'", "b''", "...", "1j", "{1}", "[None]", "1 + 1", "-[]", "not 1"]
+
+
+def literal_key_cases():
+    """Complete: KEY segments whose TEXT reads as a Python literal (list, dict, tuple, set, None, numbers in every spelling; the
+    string / integer key retry of `_get_nodes_by_key` and every helper that evaluates key text) - written demarcated and with
+    backslash escapes - x Hashes that lack the key, own it as a text key, an Array-of-Hashes, a list x reached directly, below a
+    key, through the Array-of-Hashes pass-through, below `*` / `**`, followed by nothing / a key."""
+    I = lambda v: {"k": "int", "v": str(v)}     # noqa: E731
+    out = []
+    for text in LITERAL_KEY_TEXTS:
+        spellings = []
+        if "'" not in text:
+            spellings.append("'" + text + "'")
+        if '"' not in text:
+            spellings.append('"' + text + '"')
+        spellings.append("".join(("\\" + c) if c in " .[](){}'\"/^$%&*!=<>~,:+-" else c for c in text))
+        plain = {"k": "map", "e": [["a", I(1)], [2, I(4)], ["42", I(0)]]}
+        own = {"k": "map", "e": [["a", I(1)], [text, I(8)], [3, I(9)]]}
+        aoh = {"k": "seq", "i": [plain, {"k": "null"}, own, {"k": "map", "e": []}]}
+        docs = [
+            (plain, [[]]), (own, [[]]), ({"k": "map", "e": []}, [[]]),
+            ({"k": "map", "e": [["settings", plain], ["own", own], ["items", aoh]]},
+             [["settings"], ["own"], ["items"], ["*"], ["**"], ["items", "[0]"], ["items", "*"]]),
+            (aoh, [[], ["*"], ["[0:3]"]]),
+            ({"k": "seq", "i": [I(1), I(2)]}, [[]]),
+        ]
+        for sp in spellings:
+            for d, pres in docs:
+                for pre in pres:
+                    for tail in ([], ["a"]):
+                        out.append((d, pre + [sp] + tail))
+    return out
+
+
 def run(chk: core.Check):
     core.use_repo()
     opts = {"c02": False, "slash": True, "opt_create": True}
@@ -221,6 +257,17 @@ def run(chk: core.Check):
         chk.out_of_model += stats["n"]
         for k, v in stats.items():
             chk.count("unicode-number-keys:" + k, v)
+        for sig, w, case in viol:
+            chk.violation(sig, w, case)
+    # key segments whose text reads as a Python literal (`settings."[]"`, `'{1: [2]}'`, `\\[3\\]`)
+    lk = c01.subsample(chk, literal_key_cases())
+    chk.extra_cov["literal_key_layer"] = "%d (document, path) cases x required / exists / optional" % len(lk)
+    for stats, viol in core.pmap(ev.keyword_chunk, [(c, dict(opts, kw_opt=True, what="key segment whose text reads as a Python literal"))
+                                                    for c in core.chunked(lk, 64)]):
+        chk.evaluations += stats["n"]
+        chk.out_of_model += stats["n"]
+        for k, v in stats.items():
+            chk.count("literal-keys:" + k, v)
         for sig, w, case in viol:
             chk.violation(sig, w, case)
     # keyword segments: modelled by C13; here only the exception type of the real queries is checked
